@@ -19,6 +19,7 @@ CONSTANTS Threads,        \* set of thread ids
           BadNames,       \* [Mgrs -> set of names whose selection must be rejected]
           MaxDepth,       \* max nesting of contexts per thread
           MaxOps,         \* bound on operations (state constraint of the MC configs)
+          WithModes,      \* TRUE: the dispatch-mode switches (use_static_dispatch / use_dynamic_dispatch) are part of the model
           Atomic,         \* TRUE: a global selection does both writes in one step (operation grain)
           ExitFlavour     \* "entered" (specified) | "global" (as found before fix F-17a)
 
@@ -32,9 +33,10 @@ VARIABLES S,          \* [shared : [Mgrs -> name], local : [Mgrs -> [Threads -> 
           actor,      \* history: thread that took the last step (None initially)
           actorLocal, \* history: TRUE iff the last step belongs to a thread-local selection/context
           rejected,   \* history: TRUE iff the last step was a rejected selection
-          opLocal     \* history: [Threads -> flavour of the operation the thread started last]
+          opLocal,    \* history: [Threads -> flavour of the operation the thread started last]
+          disp        \* [Mgrs -> "dyn" or the backend name frozen by use_static_dispatch()]  (class-level, shared by all threads)
 
-vars == <<S, pc, sel, nops, actor, actorLocal, rejected, opLocal>>
+vars == <<S, pc, sel, nops, actor, actorLocal, rejected, opLocal, disp>>
 
 Idle == [k |-> "idle", m |-> None, b |-> None]
 
@@ -68,9 +70,11 @@ Init == /\ S = InitS
         /\ actorLocal = FALSE
         /\ rejected = FALSE
         /\ opLocal = [t \in Threads |-> FALSE]
+        /\ disp = [m \in Mgrs |-> "dyn"]
 
 Step(t, loc, rej) == /\ actor' = t /\ actorLocal' = loc /\ nops' = nops + 1 /\ rejected' = rej
                      /\ opLocal' = [opLocal EXCEPT ![t] = loc]
+                     /\ UNCHANGED disp
 
 \* first write of set_backend (and the second one too when Atomic or thread-local)
 Set1(t, m, b, loc) ==
@@ -87,7 +91,7 @@ Set2(t) ==
     /\ S' = W2(S, pc[t].m, pc[t].b)
     /\ pc' = [pc EXCEPT ![t] = Idle]
     /\ actor' = t /\ rejected' = FALSE /\ actorLocal' = opLocal[t]   \* keeps the flavour of its operation
-    /\ UNCHANGED <<sel, nops, opLocal>>
+    /\ UNCHANGED <<sel, nops, opLocal, disp>>
 
 \* rejected selection: raises before any write
 SetBad(t, m, b, loc) ==
@@ -123,7 +127,30 @@ Exit(t, how) ==
                    /\ pc' = [pc EXCEPT ![t] = [k |-> "w2", m |-> top.m, b |-> top.old]]
          /\ Step(t, top.loc, FALSE)      \* the operation is "local" iff the *context* was thread-local
 
+(* Dispatch modes (beyond C17, which speaks about dynamic dispatch only).  use_static_dispatch() rebinds the    *)
+(* manager's function/attribute names to the backend that is current IN THE CALLING THREAD at that moment, for   *)
+(* every thread; use_dynamic_dispatch() installs fresh dynamic wrappers.  Names that other modules imported at    *)
+(* import time (`tensorly.shape`, `tensorly.cp_tensor.khatri_rao`, ...) keep pointing at the import-time dynamic   *)
+(* wrappers and therefore stay dynamic in both modes.                                                           *)
+AttrDisp(s, d, u, m) == IF d[m] = "dyn" THEN Get(s, u, m) ELSE d[m]    \* what `manager.<name>` runs on
+TopDisp(s, u, m) == Get(s, u, m)                                        \* what an import-time re-export runs on
+
+UseStatic(t, m) ==
+    /\ WithModes /\ pc[t].k = "idle"
+    /\ disp' = [disp EXCEPT ![m] = Get(S, t, m)]
+    /\ actor' = t /\ actorLocal' = FALSE /\ rejected' = FALSE /\ nops' = nops + 1
+    /\ opLocal' = [opLocal EXCEPT ![t] = FALSE]
+    /\ UNCHANGED <<S, pc, sel>>
+
+UseDynamic(t, m) ==
+    /\ WithModes /\ pc[t].k = "idle"
+    /\ disp' = [disp EXCEPT ![m] = "dyn"]
+    /\ actor' = t /\ actorLocal' = FALSE /\ rejected' = FALSE /\ nops' = nops + 1
+    /\ opLocal' = [opLocal EXCEPT ![t] = FALSE]
+    /\ UNCHANGED <<S, pc, sel>>
+
 Next == \E t \in Threads :
+          \/ \E m \in Mgrs : UseStatic(t, m) \/ UseDynamic(t, m)
           \/ Set2(t)
           \/ \E m \in Mgrs, loc \in BOOLEAN :
                \/ \E b \in Names[m] : Set1(t, m, b, loc) \/ Enter(t, m, b, loc)
@@ -169,6 +196,14 @@ ExitRestores ==
 \* a rejected selection changes nothing (checked as: S changes only on the listed accepting steps;
 \* SetBad/EnterBad are the only steps with nops' # nops and S' = S forced)
 RejectedNoChange == [][rejected' => S' = S]_vars
+
+\* selections never change what a frozen (static) manager surface runs on; switching the mode never changes a selection
+StaticIsFrozen ==
+    [][\A m \in Mgrs : (disp[m] # "dyn" /\ disp'[m] = disp[m]) =>
+          \A u \in Threads : AttrDisp(S', disp', u, m) = AttrDisp(S, disp, u, m)]_vars
+ModeSwitchKeepsSelections == [][disp' # disp => S' = S]_vars
+\* in dynamic mode both surfaces agree with the thread's active backend
+DynamicSurfacesAgree == \A m \in Mgrs, u \in Threads : disp[m] = "dyn" => AttrDisp(S, disp, u, m) = TopDisp(S, u, m)
 
 \* a step touches one manager only
 ManagersIndependent ==
